@@ -1307,6 +1307,9 @@ class App(falcon.app.App):
         if resp:
             # NOTE(caselit): Reset body, data and media before calling the handler
             resp.text = resp.data = resp.media = None
+            # NOTE: Server-sent events take precedence over any other body, so
+            #   an emitter set before the error would replace the error response.
+            resp.sse = None
 
         if err_handler is not None:
             try:
